@@ -26,10 +26,13 @@ impl ESpecTable {
                     // Consecutive nulls or leading null = empty ESpec string
                     return Err(EncodingError::EmptyESpec);
                 }
-                let spec = String::from_utf8(current.clone())
-                    .unwrap_or_else(|_| String::from_utf8_lossy(&current).to_string());
+                // A lossy conversion would change the length of the string and
+                // with it the size of the block that build() checks against the
+                // header: a table that cannot be written back is not accepted
+                let spec = String::from_utf8(std::mem::take(&mut current)).map_err(|e| {
+                    EncodingError::InvalidESpec(format!("ESpec string is not valid UTF-8: {e}"))
+                })?;
                 entries.push(spec);
-                current.clear();
             } else {
                 current.push(byte);
             }
@@ -127,6 +130,15 @@ mod tests {
         let data = b"spec";
         let result = ESpecTable::parse(data);
         assert!(matches!(result, Err(EncodingError::UnterminatedESpec)));
+    }
+
+    #[test]
+    fn test_non_utf8_rejected() {
+        // Used to be converted lossily: the table then no longer had the size
+        // the header declares and EncodingFile::build failed
+        let data = b"n\0\xFF\0";
+        let result = ESpecTable::parse(data);
+        assert!(matches!(result, Err(EncodingError::InvalidESpec(_))));
     }
 
     #[test]
